@@ -180,10 +180,15 @@ fn lift(statement: FsStatement, state: &mut ShrinkingState) -> Rc<axcut::syntax:
         });
     }
 
-    let label = fresh_identifier(
-        state.max_id,
-        &("lift_".to_string() + state.current_label + "_"),
-    );
+    let base_name = "lift_".to_string() + state.current_label + "_";
+    let mut label = fresh_identifier(state.max_id, &base_name);
+    // a user-defined label may be printed exactly like the generated one (`name_id`), so we skip such ids
+    while state
+        .used_labels
+        .contains(&Identifier::new(format!("{}_{}", label.name, label.id)))
+    {
+        label = fresh_identifier(state.max_id, &base_name);
+    }
     let context = shrink_context(context.into(), state.codata);
     // we substitute the fresh variables for the free ones in the body
     let body = statement.subst_sim(&subst).shrink(state);
